@@ -324,9 +324,37 @@ package generator
 // assumed contract, listed as such in the evidence. It returns an error, or a
 // type; it does not touch the struct being built nor the two name maps.
 //@ func (*schemaGenerator).generateTypeInline
-//@   trusted assumed contract: returns (nil, error) or (type, nil); does not modify structType, uniqueNames, requiredNames (it may add imports and declarations to the output, which no post below reads)
+//@   props C18 C07 C03 C02 C08
+//@   trusted at call sites its result is one of the listed shapes; its own arm selection is verified below against assumed contracts of the recursive generate* functions
+//@   option inline PrimitiveTypeFromJSONSchemaType getMinIntType adjustForSignedBounds adjustForUnsignedBounds NormalizeBounds
+//@   option shape-zero t. scope.
+//@   option noframe
 //@   shape results = (prim:string; nil) | (ptr:string; nil) | (arr1:int; nil) | (named:X; nil) | (nil; error)
+//@   shape g = sgen()
+//@   shape t = new
+//@   shape t.Enum = nil | emptyslice() | anyvals(1)
+//@   shape t.Ref = "" | "#/$defs/X"
+//@   shape t.Type = strs() | strs(string) | strs(integer) | strs(array) | strs(object) | strs(array,null) | strs(null,array) | strs(null,string) | strs(string,integer)
+//@   shape t.Items = nil | new
 //@   assigns nothing
+//@   ensures [C18,C08] empty-enum-fails: t.Enum != nil && len(t.Enum) == 0 ==> result1 != nil
+//@   ensures [C07,C03,C02] array-arm: t.Enum == nil && t.Ref == "" && len(t.Type) >= 1 && (t.Type[0] == "array" || (len(t.Type) == 2 && t.Type[0] == "null" && t.Type[1] == "array")) && result1 == nil
+//@       ==> dyn(result0) == "*codegen.ArrayType"
+//@   ensures [C03,C02] primitive-arm: t.Enum == nil && t.Ref == "" && len(t.Type) == 1 && (t.Type[0] == "string" || t.Type[0] == "integer") && result1 == nil
+//@       ==> dyn(result0) == "codegen.PrimitiveType" && result0.Type == (t.Type[0] == "string" ? "string" : "int")
+//@   ensures [C03,C02] nullable-primitive-is-pointer: t.Enum == nil && t.Ref == "" && len(t.Type) == 2 && t.Type[0] == "null" && t.Type[1] == "string" && result1 == nil
+//@       ==> dyn(result0) == "*codegen.PointerType"
+//@   ensures [C03,C02] two-non-null-types-untyped: t.Enum == nil && t.Ref == "" && len(t.Type) == 2 && t.Type[0] == "string" && t.Type[1] == "integer" ==> result1 == nil && dyn(result0) == "codegen.EmptyInterfaceType"
+//@   ensures [C03] untyped: t.Enum == nil && t.Ref == "" && len(t.Type) == 0 ==> result1 == nil && dyn(result0) == "codegen.EmptyInterfaceType"
+
+// generateDeclaredType is glue (decl caches, recursion): assumed contract. An
+// empty enum, wherever it is, must make generation fail (C18/C08:
+// generateEnumType rejects it).
+//@ func (*schemaGenerator).generateDeclaredType@callsite
+//@   trusted assumed contract: returns (named type, nil) or (nil, error); an empty non-nil enum yields an error
+//@   shape results = (named:X; nil) | (nil; error)
+//@   assigns nothing
+//@   ensures t.Enum != nil && len(t.Enum) == 0 ==> result1 != nil
 
 //@ spec the_prop(t, name) = t.Properties[name]
 //@ spec final_base(g, t, name) = (the_prop(t, name).GoJSONSchemaExtension != nil && the_prop(t, name).GoJSONSchemaExtension.Identifier != nil)
@@ -475,3 +503,25 @@ package generator
 //@   ensures [C16,C17] one-method-per-formatter: !g.config.OnlyModels ==> len(g.output.file.Package.Decls) == 2 && has_import(g, "encoding/json") && has_import(g, "gopkg.in/yaml.v3")
 //@   ensures [C01] fmt-iff-some-fragment-returns-errors: !g.config.OnlyModels ==> (has_import(g, "fmt") <==> (len(validators) >= 1 && abs_has_error(0)) || (len(validators) >= 2 && abs_has_error(1)))
 //@   ensures [C01] no-stray-import: !g.config.OnlyModels ==> !has_import(g, "errors") && !has_import(g, "regexp") && !has_import(g, "math")
+
+// ---- one schemaGenerator per document (newSchemaGenerator) ---------------------
+// The map that resolves "$ref" strings inside allOf/anyOf is per document: the
+// same string (say "#/$defs/Base") names different definitions in different
+// files, so a generator must start with its own, empty map (C10, C20).
+//@ func newSchemaGenerator
+//@   props C10 C20 C11
+//@   option shape-zero g schema output
+//@   assigns nothing
+//@   ensures [C10,C20,C11] own-ref-map: fresh_map(result.schemaTypesByRef) && len(result.schemaTypesByRef) == 0
+//@   ensures [C10,C20] carries-arguments: result.Generator == g && result.schema == schema && result.schemaFileName == fileName && result.output == output
+
+// ---- following a $ref into another file (generateReferencedType): data flow ----
+// The referenced document is registered under its RESOLVED path (so that file
+// refs inside it resolve relative to it, C10), and its output file / package is
+// looked up by its $id (C13: $id and the legacy id are one identifier after
+// decoding; C20).
+//@ func (*schemaGenerator).generateReferencedType
+//@   props C10 C13 C20
+//@   arg-from addFile 0 call:QualifiedFileName:0
+//@   arg-from findOutputFileForSchemaID 0 field:ID
+//@   arg-from Load 0 call:extractRefNames:1
